@@ -128,6 +128,20 @@ class ColourContext:
         p = self.prim(c)
         return p if p in ("set", "clear") else None
 
+    def document_of_set(self, fi, c: ast.Call):
+        """the document whose colours a set site establishes: the `document` argument of set_document_context, or the argument
+        of the colour collector whose result is written into the state directly; None if it cannot be told"""
+        from ..astmatch import resolve
+        if _last(c) == SET:
+            if "document" in [a.arg for a in self.setter.node.args.args]:
+                return bound_arg(c, self.setter, "document")
+            return c.args[0] if c.args else None
+        if c.args:
+            v = resolve(c.args[0], fi.node)
+            if isinstance(v, ast.Call) and _last(v) == "collect_document_colors" and v.args:
+                return v.args[0]
+        return None
+
     def touches(self, fn: ast.AST) -> bool:
         for n in walk_no_nested(fn):
             if isinstance(n, ast.Call) and self.op_of_call(n):
@@ -176,8 +190,8 @@ class ColourContext:
         doc_param = None
         params = [a.arg for a in list(fi.node.args.posonlyargs) + list(fi.node.args.args)]
         for c in walk_no_nested(fi.node):
-            if isinstance(c, ast.Call) and _last(c) == SET:
-                a0 = bound_arg(c, self.setter, "document") if "document" in [a.arg for a in self.setter.node.args.args] else (c.args[0] if c.args else None)
+            if isinstance(c, ast.Call) and self.op_of_call(c) == "set":
+                a0 = self.document_of_set(fi, c)
                 if isinstance(a0, ast.Name) and a0.id in params:
                     doc_param = a0.id
         out = {"fi": fi, "yields": at_yield, "establishes": bool(at_yield) and all(st for _, st in at_yield),
@@ -458,6 +472,7 @@ def r12_1(ctx: Ctx, cg: CallGraph) -> None:
         for nd in sets + weak:
             if id(nd) not in live:
                 continue
+            matched = False
             for part in own_parts(nd):
                 for c in ast.walk(part):
                     if not isinstance(c, ast.Call):
@@ -465,10 +480,11 @@ def r12_1(ctx: Ctx, cg: CallGraph) -> None:
                     sm = cc.manager_of(fi, c) if nd.label == "with-enter" else None
                     if sm is not None:
                         arg_e = bound_arg(c, sm["fi"], sm["doc_param"]) if sm["doc_param"] else None
-                    elif _last(c) == SET:
-                        arg_e = bound_arg(c, cc.setter, "document") or (c.args[0] if c.args else None)
+                    elif cc.op_of_call(c) == "set":
+                        arg_e = cc.document_of_set(fi, c)
                     else:
                         continue
+                    matched = True
                     arg = unparse(arg_e) if arg_e is not None else "?"
                     ctx.instance("R12.1", fi.where(c), f"{fi.short}: context established for {arg} by `{unparse(c)[:60]}`")
                     if arg_e is None:
@@ -482,6 +498,14 @@ def r12_1(ctx: Ctx, cg: CallGraph) -> None:
                             ctx.violation("R12.1", fi.short, "context re-bound " + unparse(c)[:60], fi.where(c),
                                           f"{fi.short} re-binds the colour context (`{unparse(c)[:60]}`) while one is already established; in multi-section documents it "
                                           "receives a per-section copy, so indices are numbered against a section's palette while the colour table is generated from the whole document")
+            if not matched and nd in sets:
+                # the state is written directly (no call): the re-bind check still applies
+                txt = unparse(nd.ast)[:60]
+                ctx.instance("R12.1", fi.where(nd.ast), f"{fi.short}: context state written directly by `{txt}`")
+                for st in (True, False):
+                    if (fi.short, st) in precise and id(nd) in cc.flow(fi, st) and cc.flow(fi, st)[id(nd)]:
+                        ctx.violation("R12.1", fi.short, "context re-bound " + txt, fi.where(nd.ast),
+                                      f"{fi.short} re-binds the colour context (`{txt}`) while one is already established")
     for msg in cc.unrecognised:
         ctx.gap("R12.1", msg)
     # the colour table is generated from the document being encoded
@@ -1104,7 +1128,7 @@ class PathFlow:
             e = self.find(name) if not local else (self.find(name) or self)
             (e or self).v.setdefault(name, set()).update(items)
 
-    def run(self, fi, args: dict[str, set], parent: "PathFlow.Env | None" = None) -> set:
+    def run(self, fi, args: dict[str, set], parent: "PathFlow.Env | None" = None, out: dict | None = None) -> set:
         key = (fi.short, tuple(sorted((k, tuple(sorted(v))) for k, v in args.items())))
         if key in self.stack or len(self.stack) > 12:
             return set()
@@ -1116,6 +1140,8 @@ class PathFlow:
         for _ in range(2):
             self._block(fi, fi.node.body, env, ret)
         self.stack.pop()
+        if out is not None:
+            out.update({k: set(v) for k, v in env.v.items() if k in args})
         return ret
 
     # ---- statements
@@ -1320,7 +1346,16 @@ class PathFlow:
                 for nm in pos + [x.arg for x in a.kwonlyargs]:
                     args.setdefault(nm, set())
                 parent = env if callee.parent is not None else None
-                out |= self.run(callee, args, parent)
+                final: dict = {}
+                out |= self.run(callee, args, parent, final)
+                # out-parameters: what the callee put into a container it was handed flows back into the caller's variable
+                exprs = dict(zip(pos, c.args))
+                exprs.update({k.arg: k.value for k in c.keywords if k.arg})
+                for nm, ex in exprs.items():
+                    if isinstance(ex, ast.Name) and nm in final:
+                        grown = final[nm] - args.get(nm, set())
+                        if grown:
+                            env.add(ex.id, grown, local=False)
             return out
         out = set(recv)
         for v in argv:
